@@ -423,7 +423,7 @@ pub fn check(pid: &str, seed: u64) -> Value {
                   if pid == "C04" {
                       // the three renewable shares do not depend on the reference area
                       if let Ok(e1) = run(&tcase(t, 0.5, 1.0, lm)) {
-                          for area in [0.5f32, 100.0, 217.4] {
+                          for area in [0.5f32, 100.0, 217.4, 20000.0, 1.0e7] {
                               evals += 1;
                               if let Ok(e) = run(&tcase(t, 0.5, area, lm)) {
                                   let den = (e1.balance.we.b.ren + e1.balance.we.b.nren).abs();
@@ -640,9 +640,16 @@ pub fn check(pid: &str, seed: u64) -> Value {
         let chp_el = [240.0f32, 220.0, 180.0, 90.0, 0.0, 0.0, 0.0, 0.0, 60.0, 150.0, 200.0, 240.0];
         let cogen = |m: usize| -> String { format!("1,CONSUMO,COGEN,GASNATURAL,{}\n1,PRODUCCION,EL_COGEN,{}\n2,CONSUMO,ILU,ELECTRICIDAD,{}\n3,CONSUMO,CAL,GASNATURAL,{}",
             months(&chp_el.map(|v| v * 2.5), m), months(&chp_el, m), months(&[64.0; 12], m), months(&chp_el.map(|v| v * 1.5), m)) };
+        // a heat pump for heating and hot water whose declared outputs are a few Wh a month (a file in MWh, say), with auxiliaries and PV: the split of the
+        // auxiliaries follows the RATIO of the outputs, whatever their size
+        let q_cal = [0.0016f32, 0.0015, 0.0013, 0.0011, 0.0010, 0.0010, 0.0010, 0.0010, 0.0011, 0.0013, 0.0015, 0.0016];
+        let q_acs = [0.0008f32, 0.0007, 0.0006, 0.0005, 0.0004, 0.0004, 0.0004, 0.0004, 0.0005, 0.0006, 0.0007, 0.0008];
+        let aux_hp = |m: usize| -> String { format!("1,CONSUMO,CAL,ELECTRICIDAD,{}\n1,CONSUMO,ACS,ELECTRICIDAD,{}\n1,SALIDA,CAL,{}\n1,SALIDA,ACS,{}\n1,AUX,{}\n2,PRODUCCION,EL_INSITU,{}",
+            months(&hp_el.map(|v| v * 0.2), m), months(&[4.0; 12], m), months(&q_cal, m), months(&q_acs, m), months(&[3.0; 12], m), months(&pv.map(|v| v * 0.5), m)) };
         for lm in [false, true] {
             leaf::reset_noise();
-            for (name, base, var) in [("12 months, each split in 128 (1536 steps), gas cogeneration exporting electricity", cogen(1), cogen(128)), ("12 months, each split in 730 (8760 hourly steps), PV surplus of less than 1 Wh an hour", small_surplus(1), small_surplus(730)), ("12 months, each split in 730 (8760 hourly steps), small solar thermal use", monthly(1), monthly(730)), ("365 daily steps, each split in 24 (8760 hourly steps)", build(365, 1.0, 0, 1), build(8760, 1.0 / 24.0, 0, 24)), ("30 steps rotated by 7", build(30, 1.0, 0, 1), build(30, 1.0, 7, 1)), ("13 steps, each split in 4", build(13, 1.0, 0, 1), build(52, 0.25, 0, 4)), ("13 steps, each split in 3", build(13, 1.0, 0, 1), build(39, 1.0 / 3.0, 0, 3))] {
+            for (name, base, var) in [("12 months, each split in 2, heat pump with outputs of a few Wh a month and auxiliaries", aux_hp(1), aux_hp(2)), ("12 months, each split in 8, heat pump with outputs of a few Wh a month and auxiliaries", aux_hp(1), aux_hp(8)),
+                                      ("12 months, each split in 128 (1536 steps), gas cogeneration exporting electricity", cogen(1), cogen(128)), ("12 months, each split in 730 (8760 hourly steps), PV surplus of less than 1 Wh an hour", small_surplus(1), small_surplus(730)), ("12 months, each split in 730 (8760 hourly steps), small solar thermal use", monthly(1), monthly(730)), ("365 daily steps, each split in 24 (8760 hourly steps)", build(365, 1.0, 0, 1), build(8760, 1.0 / 24.0, 0, 24)), ("30 steps rotated by 7", build(30, 1.0, 0, 1), build(30, 1.0, 7, 1)), ("13 steps, each split in 4", build(13, 1.0, 0, 1), build(52, 0.25, 0, 4)), ("13 steps, each split in 3", build(13, 1.0, 0, 1), build(39, 1.0 / 3.0, 0, 3))] {
                 evals += 2;
                 leaf::reset_noise();
                 if let (Ok(a), Ok(b)) = (run(&tcase(&base, 0.5, 1.0, lm)), run(&tcase(&var, 0.5, 1.0, lm))) {
